@@ -249,6 +249,26 @@ Definition cmp_d (a b : ddir) : comparison :=
     (then_with (opt_cmp bytes_cmp (d_span a) (d_span b))
                (list_cmp fm_cmp (d_fields a) (d_fields b))))))).
 
+(** impl PartialEq for ValueMatch / derived PartialEq for field::Match.  Whether two Debug literals can be equal is read
+    from the source (gen_valuematch_eq_debug: the `(Debug(a), Debug(b))` arm of `ValueMatch::eq`). *)
+Definition vm_peq (a b : vmatch) : bool :=
+  match a, b with
+  | VBool x, VBool y => Bool.eqb x y
+  | VU64 x, VU64 y => x =? y
+  | VI64 x, VI64 y => (x =? y)%Z
+  | VDebugLit x, VDebugLit y => gen_valuematch_eq_debug && list_eqb x y
+  | _, _ => false
+  end.
+Definition fm_peq (a b : fmatch) : bool :=
+  list_eqb (f_name a) (f_name b) &&
+  match f_value a, f_value b with Some x, Some y => vm_peq x y | None, None => true | _, _ => false end.
+Fixpoint fields_peq (a b : list fmatch) : bool :=
+  match a, b with [], [] => true | x :: a', y :: b' => fm_peq x y && fields_peq a' b' | _, _ => false end.
+(** the `#[cfg(debug_assertions)]` block of `Directive::cmp`: Equal must imply equal target, span and fields *)
+Definition ord_assert_fails (a b : ddir) : bool :=
+  is_eq (cmp_d a b) &&
+  negb (obytes_eqb (d_target a) (d_target b) && obytes_eqb (d_span a) (d_span b) && fields_peq (d_fields a) (d_fields b)).
+
 Definition has_value (f : fmatch) : bool := is_some (f_value f).
 Definition is_static (d : ddir) : bool := negb (is_some (d_span d)) && negb (existsb has_value (d_fields d)).
 Definition is_dynamic (d : ddir) : bool := is_some (d_span d) || negb (is_nil (d_fields d)).
